@@ -117,10 +117,11 @@ func worker(a []string) {
 // ---------------------------------------------------------------- replay
 
 type replayFile struct {
-	Property string          `json:"property"`
-	ID       string          `json:"id,omitempty"`
-	Msg      string          `json:"msg,omitempty"`
-	Case     json.RawMessage `json:"case"`
+	Property  string            `json:"property"`
+	ID        string            `json:"id,omitempty"`
+	Msg       string            `json:"msg,omitempty"`
+	Case      json.RawMessage   `json:"case"`
+	Preceding []json.RawMessage `json:"preceding,omitempty"`
 }
 
 // replay returns 0 if the case does not violate, 1 if it does, 2 on error.
@@ -154,9 +155,38 @@ func replay(id, file string, verbose bool) int {
 			fmt.Printf("  recorded: %s\n", rf.Msg)
 		}
 	}
+	if os.Getenv("VCHECK_REPLAY_HISTORY") == "1" {
+		// second stage (fresh process): the cases the worker ran before this one come first
+		for _, pc := range rf.Preceding {
+			pc := pc
+			sc := core.NewCtx(id, "quick", seed(), 0, 1, "")
+			core.Recover(func() { m.Replay(sc, pc) })
+		}
+	}
 	if err := m.Replay(c, rf.Case); err != nil {
 		fmt.Fprintf(os.Stderr, "replay error: %v\n", err)
 		return 2
+	}
+	if c.NViolations() == 0 && len(rf.Preceding) > 0 && os.Getenv("VCHECK_REPLAY_HISTORY") != "1" {
+		// the violation may be an effect of the calls the worker made before this case; they
+		// are replayed in a fresh process, because this one has already made the judged call
+		if verbose {
+			fmt.Printf("  not reproduced by the case alone; running the %d cases that preceded it in the worker, then the case, in a fresh process\n", len(rf.Preceding))
+		}
+		self, _ := os.Executable()
+		cmd := exec.Command(self, "replay", id, file)
+		cmd.Env = append(os.Environ(), "VCHECK_REPLAY_HISTORY=1", "VCHECK_QUIET=1")
+		cmd.Stdout, cmd.Stderr = os.Stdout, os.Stderr
+		err := cmd.Run()
+		if ee, ok := err.(*exec.ExitError); ok {
+			return ee.ExitCode()
+		} else if err != nil {
+			return 2
+		}
+		if verbose {
+			fmt.Println("no violation on this case")
+		}
+		return 0
 	}
 	if c.NViolations() > 0 {
 		if verbose {
@@ -443,7 +473,7 @@ func orchestrate(id, tier string) int {
 		}
 		seen[v.Key] = true
 		p := filepath.Join(root, "replay", fmt.Sprintf("%s-%s.json", id, v.Key))
-		b, _ := json.MarshalIndent(replayFile{Property: id, Msg: v.Msg, Case: v.Case}, "", " ")
+		b, _ := json.MarshalIndent(replayFile{Property: id, Msg: v.Msg, Case: v.Case, Preceding: v.Preceding}, "", " ")
 		os.WriteFile(p, b, 0o644)
 		violLines = append(violLines, fmt.Sprintf("VIOLATION property=%s replay=%s", id, p))
 		fmt.Printf("violation: %s\n", v.Msg)
